@@ -152,31 +152,67 @@ func NewEncryptedISO(f afero.File, data1 []byte, clearRegions bool) (*EncryptedI
 }
 
 func (e *EncryptedISO) Read(b []byte) (int, error) {
-	readStart := e.offset
-
-	read, err := e.privateFile.Read(b)
-	if err != nil || read == 0 {
-		return read, err
+	read, err := e.ReadAt(b, int64(e.offset))
+	e.offset += sizeBytes(read)
+	if read > 0 && err == io.EOF {
+		err = nil // short read at the end of the image, EOF comes with the next call
 	}
 
-	e.offset += sizeBytes(read)
-	e.clearRegionsData(readStart, b[:read])
-	e.decryptData(readStart, b[:read], false)
-	return read, nil
+	return read, err
 }
 
+// ReadAt decrypts whole sectors: the window is widened to sector boundaries, read, processed and cut back,
+// so any offset and any buffer length can be served.
 func (e *EncryptedISO) ReadAt(b []byte, off int64) (int, error) {
-	read, err := e.privateFile.ReadAt(b, off)
-	if err != nil || read == 0 {
-		return read, err
+	if off < 0 {
+		return 0, syscall.EINVAL
 	}
 
-	e.clearRegionsData(sizeBytes(off), b[:read])
-	e.decryptData(sizeBytes(off), b[:read], true)
-	return read, nil
+	if len(b) == 0 {
+		return 0, nil
+	}
+
+	start := sizeBytes(off)
+	windowStart := start.floorSectors().bytes()
+	windowEnd := (start + sizeBytes(len(b))).sectors().bytes()
+
+	window := b
+	aligned := windowStart == start && windowEnd == start+sizeBytes(len(b))
+	if !aligned {
+		window = make([]byte, windowEnd-windowStart)
+	}
+
+	read, err := io.ReadFull(io.NewSectionReader(e.privateFile, int64(windowStart), int64(len(window))), window)
+	if err != nil && err != io.EOF && err != io.ErrUnexpectedEOF {
+		return 0, err
+	}
+
+	window = window[:read]
+	e.clearRegionsData(windowStart, window)
+	e.decryptData(windowStart, window, true)
+
+	if sizeBytes(len(window)) <= start-windowStart {
+		return 0, io.EOF
+	}
+
+	n := len(window)
+	if !aligned {
+		n = copy(b, window[start-windowStart:])
+	}
+
+	if n < len(b) {
+		return n, io.EOF
+	}
+
+	return n, nil
 }
 
 func (e *EncryptedISO) Seek(offset int64, whence int) (int64, error) {
+	if whence == io.SeekCurrent { // Read no longer moves the position of the underlying file
+		offset += int64(e.offset)
+		whence = io.SeekStart
+	}
+
 	newOffset, err := e.privateFile.Seek(offset, whence)
 	if err != nil {
 		return newOffset, err
@@ -203,8 +239,8 @@ func (e *EncryptedISO) decryptData(start sizeBytes, data []byte, cloneCBC bool) 
 			continue
 		}
 
-		startSector := max(region.start, start.floorSectors())
-		endSector := min(region.end, end.sectors())
+		startSector := max(region.start, start.sectors())
+		endSector := min(region.end, end.floorSectors()) // whole sectors only
 		for i := startSector; i < endSector; i++ {
 			encryptedSpan := data[i.bytes()-start : i.next().bytes()-start]
 			e.setIVForSector(i, cloneCBC).CryptBlocks(encryptedSpan, encryptedSpan)
